@@ -34,8 +34,7 @@ Definition has_date (t : option (list string)) : bool := match t with Some _ => 
 Definition sem_ant (a : ant_m) : bool :=
   isdec (am_dazi a) && isdec (am_zen1 a) && isdec (am_zen2 a) && isdec (am_dzen a)
   && sem_valid (am_from a) && sem_valid (am_until a)
-  && (String.eqb (am_sat a) "" || has_date (am_from a))          (* satellites carry VALID FROM *)
-  && forallb sem_freq (am_freqs a)
+  && forallb sem_freq (am_freqs a) && forallb sem_freq (am_rms a)
   && nodupb (map fm_code (am_freqs a))                            (* frequency codes of one antenna are distinct *)
   && match am_freqs a with [] => false | _ => true end.           (* at least one frequency section *)
 
